@@ -295,8 +295,9 @@ theorem cost_trace_last (xs : List (Array ℝ)) (xlast : Array ℝ) (p₀ : Pris
       exact hfold
 
 /-- **solve leaves the arrays of the last evaluated point**: whatever points `x₁ … x_m` the root
-finder evaluated before, if its last evaluation is at `x*` (the point it returns — this is the one
-assumption on the external solver, sampled on the implementation for six methods) the state after
+finder evaluated before, the last evaluation is at `x*`, the point it returns (since the repair of finding
+F18 `solve` performs this evaluation itself after `scipy.optimize.root` returns; before, it was an assumption
+on the external solver that fails for `method='lm'`), so the state after
 `solve` is exactly `cost x*` followed by `totalCorr → real space`; nothing of the earlier iterates
 survives. -/
 theorem solve_leaves_returned_root (xs : List (Array ℝ)) (xstar : Array ℝ) (p₀ : Prism ℝ)
